@@ -109,12 +109,13 @@ fn guarded(which: &str, label: String, f: impl FnOnce() -> Result<(), String> + 
     // a panic / hang is a C04 matter; a hang of a for_each_concurrent* call with a limit >= 1 is also what C10's last sentence excludes
     let c10_hang = which == "C10" && (label.contains("limit=Some(1)") || label.contains("limit=Some(2)"));
     let c04 = which == "C04" || which == "all";
-    match rx.recv_timeout(std::time::Duration::from_secs(20)) {
-        Ok(true) => Ok(h.join().unwrap().ok().unwrap()),
+    // a run that is stuck is parked (no CPU); a run that is merely slow on a loaded machine keeps the process busy
+    match recv_unless_idle(&rx, 20, 900) {
+        Some(true) => Ok(h.join().unwrap().ok().unwrap()),
         // a panic / hang is a C04 matter: it is only reported when C04 is being searched
-        Ok(false) => if c04 { Err(format!("C04: panic during {label}")) } else { Ok(Ok(())) },
-        Err(_) if c10_hang => Err(format!("C10: {label} did not run to completion within 20 s although the limit is >= 1")),
-        Err(_) => if c04 { Err(format!("C04: {label} did not return within 20 s (future left pending with no wake-up)")) } else {
+        Some(false) => if c04 { Err(format!("C04: panic during {label}")) } else { Ok(Ok(())) },
+        None if c10_hang => Err(format!("C10: {label} did not run to completion (no progress for 20 s, the thread is parked) although the limit is >= 1")),
+        None => if c04 { Err(format!("C04: {label} did not return (no progress for 20 s: future left pending with no wake-up)")) } else {
             // hangs are a C04 matter; a search for another property gives up after a few of them instead of waiting 20 s per call
             if HANGS.fetch_add(1, std::sync::atomic::Ordering::SeqCst) >= 2 { println!("OK: {which} search abandoned after repeated hangs (hangs are reported by the C04 search)"); std::process::exit(0); }
             Ok(Ok(()))
